@@ -1324,6 +1324,9 @@ fn check_enc(m: &str, tree: &T, out: &mut Out, feature: &str) -> Option<Vec<u8>>
         Some(Ok(t2)) => {
             if deep {
                 out.fail("M13:roundtrip", &format!("{}-deep-accepted", feature), format!("depth {}", depth_of(tree)));
+                // C19 "never ... hangs or over-allocates on arbitrary input": the decoder's depth is bounded
+                // (prost's recursion limit); without it a hostile payload nested deep enough overflows the stack
+                out.fail("C19:recursion-bounded", &format!("{}-deep-accepted", feature), format!("a payload nested {} levels deep was decoded instead of refused: the recursion limit of the wire decoder is gone", depth_of(tree)));
             } else if show(&t2) != show(tree) {
                 out.fail(
                     "M13:roundtrip",
